@@ -10,6 +10,12 @@ Library calls are parameters (`Oracle`): `strings.ToLower`, `strconv.ParseFloat`
 -/
 namespace Rare.C13
 
+/-- Bytes of an ASCII literal (kernel-reducible, unlike `String.toUTF8`). -/
+def asc (s : String) : Bytes := s.toList.map (fun c => UInt8.ofNat c.toNat)
+
+/-- `strings.ToLower` restricted to ASCII input (the driver declines non-ASCII keys). -/
+def asciiLower (k : Key) : Key := k.map (fun c => if 65 ≤ c ∧ c ≤ 90 then c + 32 else c)
+
 /-- Result of `strconv.ParseFloat(k, 64)`: an error, NaN, or a value.  Values are carried as
 their image under a fixed order embedding of the non-NaN float64s into `Int`
 (`v0 < v1 ↔ o0 < o1`, `v0 == v1 ↔ o0 = o1`; -0 and +0 have the same image). -/
@@ -69,18 +75,18 @@ def byNameSmart (num : Key → PF) (a b : Key) : Bool :=
 abbrev SortSet := List (Key × Nat)
 
 def weekdays : SortSet := [
-  (ascii "sunday", 0), (ascii "monday", 1), (ascii "tuesday", 2), (ascii "wednesday", 3),
-  (ascii "thursday", 4), (ascii "friday", 5), (ascii "saturday", 6),
-  (ascii "sun", 0), (ascii "mon", 1), (ascii "tue", 2), (ascii "tues", 2), (ascii "wed", 3),
-  (ascii "thu", 4), (ascii "thur", 4), (ascii "thurs", 4), (ascii "fri", 5), (ascii "sat", 6)]
+  (asc "sunday", 0), (asc "monday", 1), (asc "tuesday", 2), (asc "wednesday", 3),
+  (asc "thursday", 4), (asc "friday", 5), (asc "saturday", 6),
+  (asc "sun", 0), (asc "mon", 1), (asc "tue", 2), (asc "tues", 2), (asc "wed", 3),
+  (asc "thu", 4), (asc "thur", 4), (asc "thurs", 4), (asc "fri", 5), (asc "sat", 6)]
 
 def months : SortSet := [
-  (ascii "january", 0), (ascii "jan", 0), (ascii "february", 1), (ascii "feb", 1),
-  (ascii "march", 2), (ascii "mar", 2), (ascii "april", 3), (ascii "apr", 3), (ascii "may", 4),
-  (ascii "june", 5), (ascii "jun", 5), (ascii "july", 6), (ascii "jul", 6),
-  (ascii "august", 7), (ascii "aug", 7), (ascii "september", 8), (ascii "sep", 8), (ascii "sept", 8),
-  (ascii "october", 9), (ascii "oct", 9), (ascii "november", 10), (ascii "nov", 10),
-  (ascii "december", 11), (ascii "dec", 11)]
+  (asc "january", 0), (asc "jan", 0), (asc "february", 1), (asc "feb", 1),
+  (asc "march", 2), (asc "mar", 2), (asc "april", 3), (asc "apr", 3), (asc "may", 4),
+  (asc "june", 5), (asc "jun", 5), (asc "july", 6), (asc "jul", 6),
+  (asc "august", 7), (asc "aug", 7), (asc "september", 8), (asc "sep", 8), (asc "sept", 8),
+  (asc "october", 9), (asc "oct", 9), (asc "november", 10), (asc "nov", 10),
+  (asc "december", 11), (asc "dec", 11)]
 
 def sortSets : List SortSet := [weekdays, months]
 
@@ -200,14 +206,14 @@ def colon : UInt8 := 58
 def parseSort (lower : Key → Key) (name : Key) : Except SortErr (Key × Bool) :=
   let first := splitNext colon name
   let realname := lower first.1
-  let reverse := realname == ascii "value"
+  let reverse := realname == asc "value"
   match first.2 with
   | none => .ok (realname, reverse)
   | some rest =>
     let modifier := lower (splitNext colon rest).1
-    if modifier == ascii "rev" || modifier == ascii "reverse" then .ok (realname, !reverse)
-    else if modifier == ascii "desc" then .ok (realname, true)
-    else if modifier == ascii "asc" then .ok (realname, false)
+    if modifier == asc "rev" || modifier == asc "reverse" then .ok (realname, !reverse)
+    else if modifier == asc "desc" then .ok (realname, true)
+    else if modifier == asc "asc" then .ok (realname, false)
     else .error .modifier
 
 inductive Mode where
@@ -216,11 +222,11 @@ inductive Mode where
 
 def lookupMode (lower : Key → Key) (name : Key) : Option Mode :=
   let name := lower name
-  if name == ascii "text" || name == [] then some .text
-  else if name == ascii "numeric" then some .numeric
-  else if name == ascii "contextual" || name == ascii "context" then some .contextual
-  else if name == ascii "date" then some .date
-  else if name == ascii "value" then some .value
+  if name == asc "text" || name == [] then some .text
+  else if name == asc "numeric" then some .numeric
+  else if name == asc "contextual" || name == asc "context" then some .contextual
+  else if name == asc "date" then some .date
+  else if name == asc "value" then some .value
   else none
 
 def modeSorter (o : Oracle) (sets : List SortSet) : Mode → Sorter
